@@ -79,7 +79,7 @@ def main():
                 res = list(ex.map(lambda p: run_prop(wt, p), PROPS))
             sh(f"git -C {wt} checkout -- . && git -C {wt} clean -fdq")
             meta = json.load(open(os.path.join(VERIF, "seeded", sid, "meta.json")))
-            own = meta.get("property", sid.split("-")[0])
+            own = sid.split("-")[0]
             entry = {"property": own, "summary": meta.get("summary", "")[:400], "caught_by": {}, "broken": []}
             for p, rc, fired, broken, tail in res:
                 if broken:
